@@ -38,7 +38,9 @@ def default_cfg(cls, N, rng, cplx, tone=False):
     raise KeyError(cls)
 
 
-ROUTES = ['fresh', 'data_assigned', 'data_inplace', 'data_refilled', 'sampling_assigned', 'nfft_assigned', 'scale_assigned']
+ROUTES = ['fresh', 'data_assigned', 'data_inplace', 'data_refilled', 'sampling_assigned', 'nfft_assigned', 'scale_assigned',
+          # histories through a NON-default representation (sides), staleness and the scale_by_freq toggle; all end in the default layout
+          'sides_first', 'sides_then_stale', 'sides_same_after_stale', 'stale_then_scale_toggle', 'datatype_flip', 'sides_call_call']
 
 
 def pick_route(rng, p_fresh=0.5):
@@ -46,6 +48,14 @@ def pick_route(rng, p_fresh=0.5):
     OTHER data / sampling / NFFT / scale_by_freq and was then given the wanted values through its attributes.  The relations the
     properties state are about estimator OBJECTS, not only about constructor calls."""
     return 'fresh' if rng.random() < p_fresh else ROUTES[1 + int(rng.integers(0, len(ROUTES) - 1))]
+
+
+def route_for(x, *salt):
+    """a route and a scale_by_freq flag derived from the case itself (so that a replay needs no extra field): half of the cases fresh"""
+    import zlib
+    h = zlib.crc32(np.ascontiguousarray(np.asarray(x)).tobytes() + repr(salt).encode())
+    route = 'fresh' if h % 2 == 0 else ROUTES[1 + (h // 2) % (len(ROUTES) - 1)]
+    return route, bool((h // 64) % 2)
 
 
 def build(cls, x, cfg, NFFT=None, sampling=1.0, scale_by_freq=False, route='fresh', prev=None):
@@ -83,9 +93,49 @@ def via(make, x, NFFT, sampling, scale_by_freq, route='fresh', prev=None):
     elif route == 'scale_assigned':
         p = make(x, NFFT, sampling, not scale_by_freq); _ = p.psd
         p.scale_by_freq = scale_by_freq
+    elif route == 'sides_first':
+        # a non-default representation chosen BEFORE the first computation, estimate read in it, then back to the default
+        p = make(x, NFFT, sampling, scale_by_freq)
+        p.sides = _alt_sides(x, 0); _ = p.psd
+        p.sides = 'default'
+    elif route == 'sides_then_stale':
+        # computed, moved to a non-default representation, made stale (new data), recomputed by the read, back to the default
+        p = make(other, NFFT, sampling, scale_by_freq); _ = p.psd
+        p.sides = _alt_sides(x, 1)
+        p.data = x
+        _ = p.psd
+        p.sides = 'default'
+    elif route == 'sides_same_after_stale':
+        # made stale, then `sides` assigned the value it already has (a no-op conversion must not mark the stale estimate fresh)
+        p = make(other, NFFT, sampling, scale_by_freq); _ = p.psd
+        p.data = x
+        p.sides = p.sides
+    elif route == 'stale_then_scale_toggle':
+        # sampling changed (estimate stale, not read), then scale_by_freq toggled: the toggle must not revive the stale estimate
+        p = make(x, NFFT, sampling * 2, not scale_by_freq); _ = p.psd
+        p.sampling = sampling
+        p.scale_by_freq = scale_by_freq
+    elif route == 'datatype_flip':
+        # the same object holds real, complex, real (or complex, real, complex) records in turn
+        flip = (other + 0j) if not np.iscomplexobj(x) else np.real(other).copy()
+        p = make(other, NFFT, sampling, scale_by_freq); _ = p.psd
+        p.data = flip; _ = p.psd
+        p.data = x
+    elif route == 'sides_call_call':
+        # explicit computations while a non-default representation is selected
+        p = make(other, NFFT, sampling, scale_by_freq); p()
+        p.sides = _alt_sides(x, 2)
+        p.data = x
+        p()
+        p.sides = 'default'
     else:
         raise KeyError(route)
     return p
+
+
+def _alt_sides(x, i):
+    """a representation other than the default one of the data type"""
+    return 'centerdc' if np.iscomplexobj(x) else ['twosided', 'centerdc', 'twosided'][i % 3]
 
 
 def _construct(cls, x, cfg, NFFT=None, sampling=1.0, scale_by_freq=False):
